@@ -214,6 +214,7 @@ func runC08(c *Ctx) {
 	}
 	c.rulePartialWrite()
 	c.ruleFileReopen("C08.reopen")
+	c.ruleFormattedBytesPrivate("C08.bytes")
 	// --- C08.lock
 	n := c.guardRule("C08.lock", []string{"eventlogger.FileSink"}, nil, false)
 	if n < 3 {
@@ -869,6 +870,9 @@ func runC14(c *Ctx) {
 	}
 
 	// --- C14.table
+	// last-writer-wins means REPLACING an entry: nothing writes through, appends into or copies
+	// onto bytes that Format has already handed out
+	c.ruleFormatTableWrites("C14.table")
 	must := c.MustLocks()
 	accs := p.CollectAccesses(p.RepoFuncs(), must, func(o string) bool { return o == "eventlogger.Event" })
 	n := 0
@@ -1436,6 +1440,30 @@ func runC15(c *Ctx) {
 									for d := pred; d != nil; d = d.Idom() {
 										cc, ts, _ := condOf(d)
 										if gb, ok := cc.(*ssa.BinOp); ok && gb.Op == token.GTR && gb.X == e && lenArg(gb.Y) != nil && lenArg(gb.Y) == lenArg(ph.Edges[1-i]) && edgeDominates(d, ts, pred) {
+											bt = et
+											staleBounded = true
+										}
+									}
+									// or: the len edge is entered only by true edges of `count > len` / `MaxFiles < 0`
+									if !staleBounded && len(pred.Preds) > 0 {
+										all := true
+										for _, q := range pred.Preds {
+											cc, ts, _ := condOf(q)
+											gb, ok := cc.(*ssa.BinOp)
+											okEdge := false
+											if ok && ts == pred {
+												switch {
+												case gb.Op == token.GTR && gb.X == e && lenArg(gb.Y) != nil && lenArg(gb.Y) == lenArg(ph.Edges[1-i]):
+													okEdge = true
+												case gb.Op == token.LSS && tb.Of(gb.X).Is("Field", "MaxFiles") && tb.Of(gb.Y).Is("Const", "0"):
+													okEdge = true
+												}
+											}
+											if !okEdge {
+												all = false
+											}
+										}
+										if all {
 											bt = et
 											staleBounded = true
 										}
